@@ -230,6 +230,10 @@ def run(tier: str) -> int:
                                   f"{'loaded although its class chain contains an undeclared incompatible override' if loaded else 'refused although valid'}",
                                   {"plugin": pname, "attempt": attempt})
         rep.parts["plugin_loading"] = {"plugins": len(LM.EXPECT), "must_be_refused": sum(1 for v in LM.EXPECT.values() if not v)}
+        # ... and stays wired in under dependencies: families of plugins with `requires` edges and parent plugins, some
+        # invalid, requested in every order (spec/PluginLoad.tla: granted iff nothing in the dependency closure is invalid)
+        from . import pluginload
+        pluginload.part(rep, wd, quick, rng)
         # hints wrapped in Annotated[...] (as metador's own schemas write them): whatever check_types accepts without
         # declaration must be semantically safe for the witnesses
         from typing_extensions import Annotated
@@ -323,6 +327,8 @@ def run(tier: str) -> int:
         for ref in list(schemas.keys()):
             if ref.name in LM.EXPECT and (not LM.EXPECT[ref.name] or ref.name == "vl.decl"):
                 continue     # the deliberately invalid plugins of the loading part, and the one that opts out by @override
+            if ref.name.startswith("vq."):
+                continue     # the families of the dependency-loading part (some deliberately invalid)
             cls = schemas._get_unsafe(ref.name, ref.version)
             chain = schemas.parent_path(ref.name, ref.version)[:-1]
             gen = []
